@@ -216,7 +216,7 @@ def run(tier, seed, replay_file):
                  PSizes=tla_set([0, 1, padmax - 1, padmax, padmax + 1, mc - 21, mc - 9, mc - 8, mc, 2 * mc + 1, 1 << 20]),
                  WSizes=tla_set([0, 1, 4096, mc - 1, mc, mc + 1, 2 * mc - 1, 2 * mc + 1, 1 << 20]),
                  RSizes=tla_set([1, 100, 4096, mc - 1, mc, mc + tag - 1, mc + tag, 1 << 17]),
-                 SrcCaps=tla_set([1000, 32768, mc, mc + 1]), DSizes=tla_set([1, req - 1, req, rsp - 1, rsp, 17, 18]),
+                 SrcCaps=tla_set([32768, mc, mc + 1]), DSizes=tla_set([1, req - 1, req, rsp - 1, rsp, 17, 18]),
                  Paths='{"plain","rf","wt","t2t"}', Writers='{"Ac","As","Bc","Bs"}', MaxW=14, MaxR=14)
         s = run_tlc(c, workers=1, edges=True, simulate="num=%d" % num, depth=28, seed=seed, edge_limit=600000, heap="6g", timeout=1200)
         if s.violation:
@@ -298,9 +298,9 @@ def run(tier, seed, replay_file):
         for ci, cfg in enumerate(CONFIGS):
             if cfg is primary:
                 continue
-            for kind in KINDS:
-                jobs.append(("%s@%d" % (kind, ci), graph, ("%s@%d" % (kind, ci), cfg, kind, 700)))
-            jobs.append(("simulate@%d" % ci, simulate, ("simulate@%d" % ci, cfg, 300, 700)))
+            for kind in ("handshake", "chunk-s2c", "buf-c2s", "buf-s2c", "relay-down"):
+                jobs.append(("%s@%d" % (kind, ci), graph, ("%s@%d" % (kind, ci), cfg, kind, 600)))
+            jobs.append(("simulate@%d" % ci, simulate, ("simulate@%d" % ci, cfg, 200, 500)))
         jobs.append(("simulate", simulate, ("simulate", primary, 600, 1500)))
 
     if ONLY:
